@@ -130,7 +130,23 @@ fn kind(cmd: &Cmd) -> &'static str {
     }
 }
 
+thread_local! {
+    /// true while a true-colour case is checked: colours then carry arbitrary alpha values
+    /// (true colour transmits the three channels as they are; the reduced depths are C20's subject
+    /// and are exercised with opaque colours only)
+    static TRANSLUCENT: std::cell::Cell<bool> = const { std::cell::Cell::new(false) };
+}
+
 fn rgba(c: Rgb) -> RGBA {
+    if TRANSLUCENT.with(|t| t.get()) {
+        let [r, g, b] = c;
+        let alpha = [255u8, 255, 0, 1, 128, 254][(r as usize + 3 * g as usize + 7 * b as usize) % 6];
+        return RGBA::new(r, g, b, alpha);
+    }
+    rgba_opaque(c)
+}
+
+fn rgba_opaque(c: Rgb) -> RGBA {
     RGBA::new(c[0], c[1], c[2], 255)
 }
 
@@ -256,7 +272,7 @@ fn to_command(cmd: &Cmd) -> TerminalCommand {
                 n if n < 0 => TerminalColor::Background,
                 n => TerminalColor::Palette(n as usize),
             },
-            color: color.map(rgba),
+            color: color.map(rgba_opaque),
         },
         Cmd::Title(title) => TerminalCommand::Title(title.clone()),
         Cmd::DeviceAttrs => TerminalCommand::DeviceAttrs,
@@ -763,6 +779,22 @@ fn encode(encoder: &mut TTYEncoder, out: &mut Vec<u8>, cmd: &Cmd) -> Result<(), 
     })
 }
 
+/// a writer that takes nothing
+struct Refuse;
+
+impl std::io::Write for Refuse {
+    fn write(&mut self, buf: &[u8]) -> std::io::Result<usize> {
+        if buf.is_empty() {
+            Ok(0)
+        } else {
+            Err(std::io::ErrorKind::WouldBlock.into())
+        }
+    }
+    fn flush(&mut self) -> std::io::Result<()> {
+        Ok(())
+    }
+}
+
 // ---------------------------------------------------------------------------
 // generators
 
@@ -990,6 +1022,7 @@ impl Prop for C05 {
             return Ok(());
         }
         let caps = caps_of(case);
+        TRANSLUCENT.with(|t| t.set(case.depth == 0));
 
         // 1. every command on its own, fresh encoder: meaning + ground state
         let mut separate: Vec<Vec<Op>> = Vec::with_capacity(case.cmds.len());
@@ -1019,7 +1052,14 @@ impl Prop for C05 {
         let mut encoder = TTYEncoder::new(caps);
         let mut stream = Vec::new();
         let mut ends = Vec::with_capacity(case.cmds.len());
-        for cmd in case.cmds.iter() {
+        for (k, cmd) in case.cmds.iter().enumerate() {
+            // Now and then the output refuses a command (EAGAIN on a congested tty): nothing of it
+            // reaches the terminal, and what is encoded next must not carry anything of it along.
+            if (k + case.cmds.len() + case.depth as usize) % 3 == 0 {
+                let refused = &case.cmds[(k * 7 + 3) % case.cmds.len()];
+                let result = encoder.encode(&mut Refuse, to_command(refused));
+                ctx.feat_if(result.is_err(), "stream.command-refused-by-writer");
+            }
             encode(&mut encoder, &mut stream, cmd)?;
             ends.push(stream.len());
         }
